@@ -13,5 +13,5 @@ MUTANTS = [
 
 MUTANTS += [
     ("wsc-comment-not-skipped", "vsg/vhdlFile/utils.py", "        or isinstance(oToken, parser.comment)\n        or isinstance(oToken, parser.blank_line)\n        or isinstance(oToken, parser.preprocessor)\n    ):\n        return True\n    else:\n        return False\n\n\ndef token_is_whitespace_token", "        or isinstance(oToken, parser.blank_line)\n        or isinstance(oToken, parser.preprocessor)\n    ):\n        return True\n    else:\n        return False\n\n\ndef token_is_whitespace_token"),
-    ("next-nonws-off-by-one", "vsg/vhdlFile/utils.py", "        if token_is_whitespace_or_comment(oToken):\n            continue\n        return iIndex\n    return iCurrent", "        if token_is_whitespace_or_comment(oToken):\n            continue\n        return iIndex + 1\n    return iCurrent"),
+    ("next-nonws-off-by-one", "vsg/vhdlFile/utils.py", "    for iIndex in range(iToken, len(lObjects)):\n        oToken = lObjects[iIndex]\n        if token_is_whitespace_or_comment(oToken):\n            continue\n        return iIndex\n    return iCurrent", "    for iIndex in range(iToken, len(lObjects)):\n        oToken = lObjects[iIndex]\n        if token_is_whitespace_or_comment(oToken):\n            continue\n        return iIndex + 1\n    return iCurrent"),
 ]
